@@ -6,6 +6,7 @@ From Goit Require Import Commit World Repo Inv SnapshotFacts.
 From Goit Require Import Config CommitFacts BranchFacts ExactFacts CommitCmdFacts GateFacts.
 From Goit Require Import Bridge.
 From Goit Require HeadFacts.
+From Goit Require GateReachFacts.
 Import ListNotations.
 
 (* T0 (tie to the source): every regexp literal of the current Go source denotes
@@ -154,3 +155,26 @@ Print Assumptions C07_commit_succeeds_iff.
 Print Assumptions C07_status_staged_section_exact.
 Print Assumptions C07_status_after_commit_clean.
 Print Assumptions C07_source_patterns_are_the_models.
+
+(* on every reachable repository, with no hypothesis on the tip, its snapshot or the commit text
+   (head_snapshot w = the snapshot of the current branch's commit, [] before the first commit): *)
+Theorem C07_commit_succeeds_iff_on_every_reachable_repository : forall e msg w c,
+  Reachable w -> w_coll w = false -> SmallStore (w_objs w) ->
+  ctx_of w = Some c ->
+  sign_ok (user_name (x_l c) (x_g c)) (user_email (x_l c) (x_g c)) (e_time e) (e_off e) ->
+  ((exists out, snd (fst (step (ACmd e (CCommit msg)) w)) = OOk out) <->
+   user_set (x_l c) (x_g c) = true /\ GateReachFacts.head_snapshot w <> idx_of w).
+Proof. exact GateReachFacts.reachable_commit_succeeds_iff. Qed.
+
+Theorem C07_commit_succeeds_on_every_reachable_repository : forall w e msg c,
+  Reachable w -> w_coll w = false -> SmallStore (w_objs w) ->
+  ctx_of w = Some c ->
+  GateReachFacts.head_snapshot w <> idx_of w ->
+  user_set (x_l c) (x_g c) = true ->
+  sign_ok (user_name (x_l c) (x_g c)) (user_email (x_l c) (x_g c)) (e_time e) (e_off e) ->
+  exists root subs, write_tree_top (idx_of w) = Some (root, subs) /\
+    step (ACmd e (CCommit msg)) w
+    = (after_commit e c msg w root subs, OOk [], do_commit_trace e c msg w root subs).
+Proof. exact GateReachFacts.reachable_commit_succeeds. Qed.
+Print Assumptions C07_commit_succeeds_iff_on_every_reachable_repository.
+Print Assumptions C07_commit_succeeds_on_every_reachable_repository.
